@@ -171,6 +171,14 @@ def build_cases(rng, n, max_depth, p_rep=0.3, repeated_only=False):
             fns, mode = None, "total"
             # (a FLOAT: the values that follow go through the 15-digit folding)
             assign = [["eps", ["float", rng.choice([1e-20, 1.23456789012e-10, 5e-9, 2.5e-13])]], ["k", ["int", rng.randint(2, 9)]]]
+        if mode in ("total", "partial") and assign and not fns and r["name"] not in ("hugeroot", "tinyroot") and rng.random() < 0.08:
+            # one value written over TWO mathematical constants in spellings evaluate() recognises (pi*e, Pi + E): both are constants
+            PI_, E_ = ["f", "<const>pi", []], ["f", "<const>E", []]
+            text, tree = rng.choice([("pi*e", E.op("mul", PI_, E_)), ("pi + E", E.op("add", PI_, E_)), ("Pi + 2*e", E.op("add", PI_, E.op("mul", E.num(2), E_)))])
+            cand = [i for i, (kk, _) in enumerate(assign) if kk.rsplit(".", 1)[-1] not in H.COUNT_NAMES + H.POW_EXPONENTS and "#" not in kk]
+            if cand:
+                i = rng.choice(cand)
+                assign[i] = [assign[i][0], ["str", text, tree]]
         case = {"routine": r, "assign": assign, "mode": mode}
         if len(assign) >= 2:
             perm = list(assign)
@@ -214,7 +222,7 @@ def emit(pairs):
         for _, v in case["assign"]:
             names |= E.fv(value_expr(v))
         pts = H.points_to_coq(H.make_points(lib.Rng(f"pts-{lib.case_hash(case)}"), names, 3))
-        inex = "true" if imp.get("inexact") or any(v[0] == "float" for _, v in case["assign"]) else "false"
+        inex = "true" if imp.get("inexact") or any(v[0] == "float" or "<const>" in json.dumps(v) for _, v in case["assign"]) else "false"
         if case["routine"]["name"] == "tinyroot":
             inex = "false"      # values far below one: compared RELATIVELY (to 12 digits), an absolute tolerance would accept 0
         self_ref = "true" if case["mode"] == "expr" else "false"
